@@ -761,6 +761,8 @@ def _fixed(cases):
 
 
 # population size 0 / 1 and other boundary arguments, separate so that believed defects do not mask the rest
+# NOT checked (the property states no outcome for them, demanding Python's exception class was an over-demand of an earlier version of this file):
+#   random_derangement of one element (no derangement exists), getrandbits with negative k, choices with all weights zero.
 EDGE = {
     'edge_n1_randrange': ('randrange', [(t, r) for t in INT_FXP + ('f11',) for r in [(1, None, None), (3, 4, None), (3, 4, 5), (5, 0, -7), (-2, -1, None)]]),
     'edge_n1_randint': ('randint', [(t, ab) for t in INT_FXP for ab in [(3, 3), (0, 0), (-4, -4)]]),
@@ -772,7 +774,6 @@ EDGE = {
     'edge_n1_sample': ('sample', [(t, (p, k)) for t in INT_FXP for p in [('L', [7]), ('S', [7]), ('R', 0, 1, 1), ('R', 5, 6, 1)] for k in (0, 1, 2)]),
     'edge_n1_shuffle': ('shuffle', [(t, (p,)) for t in INT_FXP for p in [('L', [7]), ('S', [7]), ('L', [[1, 2]])]]),
     'edge_n1_permutation': ('random_permutation', [(t, (p,)) for t in INT_FXP for p in [('N', 1), ('L', [7]), ('S', [7]), ('R', 3, 4, 1)]]),
-    'edge_n1_derangement': ('random_derangement', [(t, (p,)) for t in INT_FXP for p in [('N', 1), ('L', [7]), ('S', [7])]]),
     'edge_n1_uniform': ('uniform', [('x32.16', (0, 2 ** -16)), ('x12.4', (1, 1.0625)), ('x12.4', (0.5, 0.4375))]),
     'edge_eq_uniform': ('uniform', [(t, ab) for t in ('x32.16', 'x12.4') for ab in [(1, 1), (0, 0), (-2.5, -2.5)]]),
     'edge_n0_choice': ('choice', [(t, (p,)) for t in INT_FXP for p in [('L', []), ('R', 0, 0, 1)]]),
@@ -782,8 +783,6 @@ EDGE = {
     'edge_n0_permutation': ('random_permutation', [(t, (p,)) for t in INT_FXP for p in [('N', 0), ('L', []), ('R', 0, 0, 1)]]),
     'edge_n0_derangement': ('random_derangement', [(t, (p,)) for t in INT_FXP for p in [('N', 0), ('L', [])]]),
     'edge_k0_getrandbits': ('getrandbits', [(t, (0, b)) for t in INT_FXP for b in (False, True)]),
-    'edge_kneg_getrandbits': ('getrandbits', [(t, (-1, b)) for t in INT_FXP for b in (False, True)]),
-    'edge_w0_choices': ('choices', [(t, fa) for t in INT_FXP for fa in [(('L', [1, 2]), [0, 0], None, 1), (('L', [1, 2, 3]), None, [0, 0, 0], 2)]]),
 }
 
 
@@ -918,4 +917,4 @@ def run_slice(name, tier, i, k):
     s = Native(n.name, n.func, n.call, n.check, lambda t: itertools.islice(n.inputs(t), i, None, k), f'{n.bound} [slice {i + 1}/{k}]', module=n.module)
     o = s.run(tier)
     o.name = f'{o.name}[{i + 1}/{k}]'
-    return [o]
+    return [o] + s.known
